@@ -359,23 +359,16 @@ Proof.
 Qed.
 End WithRegexCrate.
 
-(* [re_std] is where filter texts with a backslash fall out (C02: regex_nondegenerate):
-   compile_regex escapes | . $ + ? { } ( ) [ ] but not '\', so `foo\dbar^` becomes the regex
-   foo\dbar(?:[^\w\d\._%-]|$) whose \d is a digit class.  The regex crate matches
-   https://x.com/foo5bar/ with it (NetworkFilter::matches = true on the crate), the token semantics
-   of the text does not, and the rule is indexed under the literal token "dbar", which the URL
-   does not have: no engine holding the rule ever reports it for that request. *)
-Lemma regex_backslash_witness :
-  exists s u t,
-    C02_Model.no_backslash s = false /\
-    C02_Model.translate s false false = bs "foo\dbar(?:[^\w\d\._%-]|$)" /\
-    rsearch false false (rtoks s) u = false /\
-    tokenize_filter s true true = [t] /\ ~ In t (tokenize u).
-Proof.
-  exists (bs "foo\dbar^"), (bs "https://x.com/foo5bar/"), (bs "dbar").
-  repeat split; try (vm_compute; reflexivity).
-  intros H. vm_compute in H. repeat (destruct H as [H|H]; [discriminate H|]). exact H.
-Qed.
+(* Filter texts with a backslash: compile_regex used to leave '\' unescaped, so `foo\dbar^` became
+   a regex with the digit class \d, matched https://x.com/foo5bar/ and was indexed under the token
+   "dbar" which that URL does not have (a lost rule; found by this proof, repaired in /repo 3b0c504).
+   The backslash is now escaped like every other metacharacter: the regex text reads the pattern
+   literally and the token semantics rejects that URL. *)
+Example regex_backslash_escaped :
+  C02_Model.translate (bs "foo\dbar^") false false = bs "foo\\dbar(?:[^\w\d\._%-]|$)" /\
+  rsearch false false (rtoks (bs "foo\dbar^")) (bs "https://x.com/foo5bar/") = false /\
+  rsearch false false (rtoks (bs "foo\dbar^")) (bs "https://x.com/foo\dbar/") = true.
+Proof. repeat split; vm_compute; reflexivity. Qed.
 
 (* ---------------------------------------------------------------- TG discharged for lists *)
 (* every rule that matches is a plain rule matched by the plain matcher or a regex-type rule
